@@ -277,6 +277,30 @@ func (s *sys) doAuthz(host, verb, res string) error {
 	return nil
 }
 
+var cleanupNeverCame bool
+
+// recreated: a cluster is deleted and another one registered under its name (another control plane: the opposite
+// answers). What the old cluster answered must not be served for the new one - with time for the asynchronous
+// clean-up of the stopped cluster's caches to happen (up to 5 s; not judged itself).
+func recreated(c *ev.Check) {
+	for _, kind := range []string{"authn", "authz"} {
+		s := newSys(time.Hour)
+		sp := spec(time.Hour)
+		var hist []string
+		for _, e := range []string{kind + " a " + map[string]string{"authn": "t1", "authz": "get pods"}[kind], "delete a", "recreate a", kind + " a " + map[string]string{"authn": "t1", "authz": "get pods"}[kind], kind + " a-alias " + map[string]string{"authn": "t1", "authz": "get pods"}[kind]} {
+			hist = append(hist, e)
+			c.Add("transitions", 1)
+			if err := sp.Apply(s, e); err != nil {
+				key := strings.SplitN(err.Error(), ":", 2)[0]
+				c.Violation("recreated-cluster/"+key, fmt.Sprintf("cluster a answered, was deleted, and a new cluster a (another control plane) was registered: %v", err), map[string]interface{}{"spec": sp.Name, "history": hist})
+				break
+			}
+		}
+		sp.Close(s)
+		c.Add("recreate_scenarios", 1)
+	}
+}
+
 func spec(ttl time.Duration) xstate.Spec {
 	hosts := []string{"a", "a-alias", "b", "x", "unknown"}
 	return xstate.Spec{
@@ -288,6 +312,9 @@ func spec(ttl time.Duration) xstate.Spec {
 				evs = append(evs, "authn "+h+" t1", "authn "+h+" t2", "authz "+h+" get pods", "authz "+h+" impersonate users")
 			}
 			evs = append(evs, "flip a", "flip b", "answers a", "answers b", "move-x", "delete a")
+			if si.(*sys).a.ci.Context().Err() != nil {
+				evs = append(evs, "recreate a")
+			}
 			return evs
 		},
 		Apply: func(si interface{}, e string) error {
@@ -327,8 +354,37 @@ func spec(ttl time.Duration) xstate.Spec {
 							delete(s.p.hosts, h)
 						}
 					}
-					time.Sleep(2 * time.Millisecond) // the webhooks drop a stopped cluster's caches from a goroutine
+					// the webhooks drop a stopped cluster's caches from a goroutine: wait until they are gone (count-based; if
+					// they never go, carry on - the requests that follow are judged as usual)
+					for d := time.Now().Add(5 * time.Second); !cleanupNeverCame && time.Now().Before(d); time.Sleep(time.Millisecond) {
+						if time.Until(d) < 2*time.Millisecond {
+							cleanupNeverCame = true // (do not wait again in this process)
+						}
+						left := 0
+						for _, k := range append(tokenwebhook.VerifCacheKeys(s.authn), sarwebhook.VerifCacheKeys(s.authz)...) {
+							if strings.HasPrefix(k, "a/") {
+								left++
+							}
+						}
+						if left == 0 {
+							break
+						}
+					}
 				}
+			case "recreate":
+				// a new cluster is registered under the deleted cluster's name: another control plane (its tokens and RBAC
+				// are its own: the opposite answers), another ClusterInfo - not the cluster the old results came from
+				old := s.a
+				s.a = newStubCluster("a", &s.yield)
+				s.a.serial = old.serial + 1
+				flip := map[string]string{"ok": "reject", "reject": "ok", "allow": "deny", "deny": "allow"}
+				for k, v := range old.authn {
+					s.a.authn[k] = flip[v]
+				}
+				for k, v := range old.authz {
+					s.a.authz[k] = flip[v]
+				}
+				s.p.hosts["a"], s.p.hosts["a-alias"] = s.a, s.a
 			}
 			return nil
 		},
@@ -760,6 +816,7 @@ func main() {
 	tasks = append(tasks, xstate.Tasks(c, spec(time.Hour), c.Pick(4, 5), 26)...)
 	tasks = append(tasks, xstate.Tasks(c, specReviewEndpoint(), c.Pick(4, 5), 13)...)
 	tasks = append(tasks, ev.Task{Name: "many-clusters", Run: func() { manyClusters(c) }})
+	tasks = append(tasks, ev.Task{Name: "recreated-cluster", Run: func() { recreated(c) }})
 	bounds := []int{0, 1, 2}
 	if c.Thorough() {
 		bounds = []int{0, 1, 2, 3}
